@@ -279,18 +279,35 @@ class LoopCheck(Check):
     def flow_rng(self, ctx, cfg, fns, tmp):
         via = cfg.get("rng_via", "sample")
         runs = []
+        import numpy.random as npr
+
         for rep in range(2):
             n0 = len(smc_loop.KERNEL_LOG["rng_constructed"])
             g = SymRng(ctx, "user", 0)
-            if via == "aspire":
-                env = self._run_via_aspire(ctx, cfg, fns, g)
-            else:
-                env = self.new_env(ctx, cfg, fns, rng=g, rng_via=via)
-                env.run()
+            # numpy.random.default_rng is instrumented: any generator the library
+            # constructs on its own is observed (and is a symbolic stream too)
+            real_default_rng = npr.default_rng
+
+            def fake_default_rng(*a, **k):
+                r = SymRng(ctx, "fresh", 1000 * (len(smc_loop.KERNEL_LOG["rng_constructed"]) + 1))
+                smc_loop.KERNEL_LOG["rng_constructed"].append(r)
+                return r
+
+            npr.default_rng = fake_default_rng
+            try:
+                if via == "aspire":
+                    env = self._run_via_aspire(ctx, cfg, fns, g)
+                else:
+                    env = self.new_env(ctx, cfg, fns, rng=g, rng_via=via)
+                    env.run()
+            finally:
+                npr.default_rng = real_default_rng
             if env.stopped:
                 raise core.PathCut()
-            fresh = len(smc_loop.KERNEL_LOG["rng_constructed"]) - n0
-            d = {"via": via, "fresh_generators": fresh, "user_draws": len(g.calls)}
+            made = smc_loop.KERNEL_LOG["rng_constructed"][n0:]
+            fresh = sum(1 for r in made if len(r.calls) > 0)
+            d = {"via": via, "fresh_generators_constructed": len(made), "fresh_generators_drawn_from": fresh, "user_draws": len(g.calls)}
+            # constructing a spare generator is harmless; drawing from one is not
             ctx.prove(fresh == 0, "c20/no_fresh_generator", detail=d)
             ctx.prove(env.sampler.rng is g, "c20/user_generator_used", detail=d)
             ctx.prove(len(g.calls) >= 1, "c20/user_generator_drawn_from", detail=d)
